@@ -65,6 +65,21 @@ pub fn judge(x: &Vec<u8>, st: &mut Stats) -> Verdict {
         "enums",
         guard(|| Builder::new(h.version | h.command, h.protocol | h.address_family()).write_payload(h.address_bytes())?.write_payload(h.tlv_bytes())?.build()),
     )?;
+    // a2. the same parts as one batch; after a batch that turned out to be empty; with the length stated explicitly (before the
+    //     first write, and after the last one, as a forwarder does that learns the size from the received header)
+    check("raw-batch", guard(|| Builder::new(x[12], x[13]).write_payloads([h.address_bytes(), h.tlv_bytes()])?.build()))?;
+    check(
+        "raw-after-empty-batch",
+        guard(|| Builder::new(x[12], x[13]).write_payloads(std::iter::empty::<&[u8]>())?.write_payload(h.address_bytes())?.write_payload(h.tlv_bytes())?.build()),
+    )?;
+    check(
+        "raw-length-stated-first",
+        guard(|| Builder::new(x[12], x[13]).set_length(u16::from_be_bytes([x[14], x[15]])).write_payload(h.address_bytes())?.write_payload(h.tlv_bytes())?.build()),
+    )?;
+    check(
+        "raw-length-stated-last",
+        guard(|| Builder::new(x[12], x[13]).write_payload(h.address_bytes())?.write_payload(h.tlv_bytes())?.set_length(u16::from_be_bytes([x[14], x[15]])).build()),
+    )?;
     // c. the TLV iterator as a payload
     check("tlvs-iterator", guard(|| Builder::new(x[12], x[13]).write_payload(h.address_bytes())?.write_payload(h.tlvs())?.build()))?;
     // c2. a proxy that validates before it forwards: the iterator has been walked (fully, or by one item) before it
@@ -125,6 +140,13 @@ pub fn judge(x: &Vec<u8>, st: &mut Stats) -> Verdict {
                 let owned: Vec<TypeLengthValue<'static>> = items.iter().map(|t| t.to_owned()).collect();
                 Builder::new(x[12], x[13]).write_payload(h.address_bytes())?.write_payloads(owned.iter())?.build()
             }),
+        )?;
+        // the decoded address value and the decoded items, nothing else (an empty item list included: the batch is then the
+        // first and only write)
+        check("with_addresses-items-batch", guard(|| Builder::with_addresses(h.version | h.command, h.protocol, h.addresses).write_payloads(items.iter())?.build()))?;
+        check(
+            "with_addresses-items-batch-length-last",
+            guard(|| Builder::with_addresses(h.version | h.command, h.protocol, h.addresses).write_payloads(items.iter())?.set_length(u16::from_be_bytes([x[14], x[15]])).build()),
         )?;
         check("items-batch", guard(|| Builder::new(x[12], x[13]).write_payload(h.address_bytes())?.write_payloads(items.iter())?.build()))?;
         check(
